@@ -2,6 +2,7 @@
   C02 — L1 is only a cache: losing L1 entries is invisible; L1 never disagrees with L2.
 -/
 import Rend.Proofs.OrcaSeq
+import Rend.Proofs.RemnantAdd
 
 namespace Rend.Props.C02
 open Rend
@@ -59,5 +60,20 @@ example : ¬ CacheInv 0 { l1 := Store.empty.set [1] (some ⟨[2], 0, 0⟩), l2 :
   intro h
   obtain ⟨b, hb, _⟩ := h [1] ⟨[2], 0, 0⟩ (by simp [Store.look, Store.set, Item.live])
   simp [Store.look, Store.empty] at hb
+
+/-- **Finding D23, in the model** (the code does the same: `known_findings.jsonl`, scenario
+    `remnant-add` of the harness).  The theorems above are about pass-through handlers, where L1's
+    live entries are always backed by L2 (`CacheInv`).  With the CHUNKING handler on L1 the loss of
+    a chunk entry leaves a metadata entry behind that reads cannot see but `add` can: if L2 does
+    not serve the key and L1 serves a metadata entry of it, the main port's `add` returns "key
+    exists" without a reply of its own — the client is told NOT_STORED — while L2 holds the added
+    value afterwards.  So on this configuration the loss of an L1 entry is NOT invisible. -/
+theorem C02_chunked_remnant_blocks_add (now : Nat) (w : World) (tk : List Bytes) (c : SetCmd)
+    (hl2 : w.l2.look now c.key = none) (it : Item) (hl1 : w.l1.look now (Chunked.metaKey c.key) = some it) :
+    ((L1L2.add (Chunked.handler .l1 now) (Std.handler .l2) c).eval now w tk).1 = .error (.app .keyExists) ∧
+    ((L1L2.add (Chunked.handler .l1 now) (Std.handler .l2) c).eval now w tk).2.1 = [] ∧
+    ((L1L2.add (Chunked.handler .l1 now) (Std.handler .l2) c).eval now w tk).2.2.1.l2 c.key =
+      some ⟨c.data, c.flags, deadlineOf now c.exptime⟩ :=
+  remnant_blocks_add now w tk c hl2 it hl1
 
 end Rend.Props.C02
